@@ -8,11 +8,24 @@ def single_key_map():
     return inj_map("mp1", "s", "i64", [(tv_str("only"), tv_int("i64", 9))])
 
 
+def rename_var(node, old, new):
+    """replace the variable atom `old` by `new` throughout an AST"""
+    if isinstance(node, dict):
+        return {k: rename_var(v, old, new) for k, v in node.items()}
+    if isinstance(node, tuple):
+        if len(node) == 2 and node[0] == "var" and node[1] == old:
+            return ("var", new)
+        return tuple(rename_var(v, old, new) for v in node)
+    if isinstance(node, list):
+        return [rename_var(v, old, new) for v in node]
+    return node
+
+
 def templates(g):
     """Systematic part: every jump kind at every nesting position of every loop/branch kind."""
     out = []
     jumps = {"break": sbreak, "continue": scontinue, "ret": None, "none": None}
-    for loop in ("for", "forrange"):
+    for loop in ("for", "for-injected", "forrange"):
         for jump in ("break", "continue", "ret", "none"):
             for where in ("body", "if", "else", "elif", "nested-loop"):
                 for at in (0, 1, 2):
@@ -36,6 +49,13 @@ def templates(g):
                     if loop == "for":
                         lp = sfor(assign(("var", "i"), "=", ("math", mint(0))), mk_ecmp("<", emath(mvar("i")), emath(mint(3))),
                                   assign(("var", "i"), "+=", ("math", mint(1))), body)
+                    elif loop == "for-injected":
+                        # the loop variable lives in an injected struct field: every evaluation of the step is observable afterwards
+                        body = rename_var(body, "i", "h.I64")
+                        lp = sfor(assign(("var", "h.I64"), "=", ("math", mint(0))), mk_ecmp("<", emath(mvar("h.I64")), emath(mint(3))),
+                                  assign(("var", "h.I64"), "+=", ("math", mint(1))), body)
+                        out.append(block([g.mk(), lp, g.mk()], ("expr", emath(mvar("h.I64")))))
+                        continue
                     else:
                         lp = sforrange("i", "sq", body)
                     out.append(block([g.mk(), lp, g.mk()], ("expr", emath(mvar("i")))))
@@ -105,7 +125,7 @@ def nontrivial(c, o):
     return tree_shape_key(c["body"])
 
 
-RULE = ("systematic: {for, forRange} x {break, continue, return, none} x 5 nesting positions (loop body, inside if, else, else-if, nested loop) x 3 iteration indexes, with Mark calls making the executed path observable; "
+RULE = ("systematic: {for over a local, for over an injected struct field (every step evaluation observable in the host store), forRange} x {break, continue, return, none} x 5 nesting positions (loop body, inside if, else, else-if, nested loop) x 3 iteration indexes, with Mark calls making the executed path observable; "
         "else-if chains of length 0-3 with every truth vector, with and without else; the 10,000-iteration cap (9,999 / 10,000 / unbounded); the four compound assignments on 8 target kinds (local, struct field, nested field by value and by pointer, map entries, slice elements); "
         "a local assigned two blocks deep read at top level; random statement trees of depth <= 3 (thorough 5) with ~5% wild constructs (non-boolean conditions, break outside loops, undefined locals); "
         "compared: outcome class, returned value, cited positions, the full sequence of calls with argument values and dynamic types, and the host objects afterwards; distinct non-trivial = distinct statement-tree shapes containing a loop or branch")
